@@ -85,7 +85,7 @@ func c13Subjects() []c13Subject {
 			{"Distributor.Receive", func(g, i int) { ctx, c := cancelSoon(i); _, _ = d.Receive(ctx); c() }},
 			{"Distributor.Len", func(g, i int) { _ = d.Len() }},
 			{"Close(last)", func(g, i int) {
-				if i > 40 {
+				if i > 200 {
 					_ = q.Close()
 				} else {
 					_ = q.Len()
@@ -134,7 +134,7 @@ func c13Subjects() []c13Subject {
 				c()
 			}},
 			{"Close(last)", func(g, i int) {
-				if i > 40 {
+				if i > 200 {
 					_ = q.Close()
 				} else {
 					_ = q.Len()
@@ -185,7 +185,7 @@ func c13Subjects() []c13Subject {
 					{"Stats(cancelled)", func(g, i int) { c, cc := context.WithCancel(bg); cc(); _ = b.Stats(c) }},
 					{"Wait(cancelled soon)", func(g, i int) { c, cc := cancelSoon(i); b.Wait(c); cc() }},
 					{"Stop(last)", func(g, i int) {
-						if i > 40 {
+						if i > 200 {
 							b.Stop()
 						} else {
 							c, cc := cancelSoon(i)
